@@ -11,10 +11,11 @@
 (*                             handle_assertion_violation: the id list and,*)
 (*                             per id, the (interned) S-expression text of *)
 (*                             the condition at serialisation time         *)
-(*   check q hit truth cores   check_unsat_cores returned `hit`; `truth`   *)
+(*   check q hit truth nc      check_unsat_cores returned `hit`; `truth`   *)
 (*                             is the query's own solver run, made by the  *)
-(*                             harness with the cache off; `cores` is the  *)
-(*                             core list the function was given            *)
+(*                             harness with the cache off; `nc` is the     *)
+(*                             number of distinct cores in the list the    *)
+(*                             function was given                          *)
 (*   core q ids                FunctionContext.append_unsat_core           *)
 (*   done q                    _solve_end_to_end_callback returned         *)
 (*   endtest                   run_test returned                           *)
@@ -42,30 +43,40 @@
 (*   core-not-subset / core-not-unsat   the stored core is not a jointly   *)
 (*                        unsatisfiable subset of its query's assertions   *)
 (*   cores-survive-test   a new test starts with a non-empty core list     *)
-(*   core-list-mismatch   the core list seen by check_unsat_cores is not    *)
-(*                        the model's `cores`                              *)
+(*   core-list-mismatch   the core list seen by check_unsat_cores has not   *)
+(*                        the size of the model's `cores`                  *)
 (***************************************************************************)
 EXTENDS UnsatCache, Sequences, Json, IOUtils
 
 Data == JsonDeserialize(IOEnv.C16_TRACES)
 Traces == Data.traces
 SeqSet(s) == {s[k] : k \in 1..Len(s)}
-TraceFamily == {SeqSet(Data.family[k]) : k \in 1..Len(Data.family)}
 TraceIds == Nat
 TraceCons == Nat
 
-VARIABLES tid, i, phase, qmap
+VARIABLES tid, evs, fam, i, phase, qmap
 
-tvars == <<vars, tid, i, phase, qmap>>
+tvars == <<vars, tid, evs, fam, i, phase, qmap>>
 
-Ev == Traces[tid].events
+\* the satisfiability relation of the picked log (the configuration replaces UnsatCache!Unsat by it)
+TraceUnsat(S) == \E U \in fam : U \subseteq S
+
+Ev == evs   \* the picked log and its family travel in the state: TLC re-reads `Data` from the file at every mention
 Done == i = Len(Ev)
 E == Ev[i + 1]
 
+\* one initial state; the first step picks the log (initial states are enumerated by a single thread)
 TInit ==
-    /\ tid \in 1..Len(Traces)
+    /\ tid = 0 /\ evs = <<>> /\ fam = {}
     /\ Init
     /\ i = 0 /\ phase = 0 /\ qmap = <<>>
+
+TStart ==
+    /\ tid = 0
+    /\ LET tr == Traces IN \E t \in 1..Len(tr) :
+          /\ tid' = t /\ evs' = tr[t].events
+          /\ fam' = {SeqSet(tr[t].family[k]) : k \in 1..Len(tr[t].family)}
+    /\ UNCHANGED <<vars, i, phase, qmap>>
 
 MapOf(e) == [k \in SeqSet(e.ids) |-> e.cons[CHOOSE n \in 1..Len(e.ids) : e.ids[n] = k]]
 Q(n, st) == [ids |-> qmap[n], st |-> st]
@@ -87,7 +98,7 @@ WhyQuery(e) ==
 WhyCheck(e) ==
     IF ~ Known(e.q) \/ Q(e.q, "submitted") \notin queries THEN "query-not-submitted"
     ELSE LET q == Q(e.q, "submitted") IN
-         IF {SeqSet(e.cores[k]) : k \in 1..Len(e.cores)} # cores THEN "core-list-mismatch"
+         IF e.nc # Cardinality(cores) THEN "core-list-mismatch"
          ELSE IF e.hit THEN
               IF ~ HitEnabled(q) THEN "hit-without-core"
               ELSE IF ~ Unsat(Range(q.ids)) THEN "hit-on-sat-query"
@@ -113,7 +124,7 @@ WhyNext ==
            [] E.e = "endtest" -> IF Inflight # {} THEN "inflight-at-endtest" ELSE "ok"
            [] OTHER -> "unknown-event"
 
-Consume == i' = i + 1 /\ phase' = 0 /\ UNCHANGED tid
+Consume == i' = i + 1 /\ phase' = 0 /\ UNCHANGED <<tid, evs, fam>>
 
 (* hidden exploration steps between two submissions, in closed form *)
 Jump(e) ==
@@ -128,7 +139,7 @@ Jump(e) ==
 TQuery ==
     /\ E.e = "query"
     /\ \/ /\ phase = 0 /\ Jump(E)
-          /\ phase' = 1 /\ UNCHANGED <<tid, i, qmap>>
+          /\ phase' = 1 /\ UNCHANGED <<tid, evs, fam, i, qmap>>
        \/ /\ phase = 1 /\ Submit
           /\ qmap' = [n \in DOMAIN qmap \cup {E.q} |-> IF n = E.q THEN Restrict(alive, cur) ELSE qmap[n]]
           /\ Consume
@@ -161,16 +172,18 @@ TEndTest ==
     /\ Consume /\ qmap' = <<>>
 
 TNext ==
-    /\ ~ Done
-    /\ WhyNext = "ok"
-    /\ (TQuery \/ TCheck \/ TCore \/ TDone \/ TTest \/ TEndTest)
+    \/ TStart
+    \/ /\ tid # 0
+       /\ ~ Done
+       /\ WhyNext = "ok"
+       /\ (TQuery \/ TCheck \/ TCore \/ TDone \/ TTest \/ TEndTest)
 
 TSpec == TInit /\ [][TNext]_tvars
 
 (* printing hook (configured as an invariant, always TRUE): one record per log at the   *)
 (* state where it is completely consumed or where its next event is rejected.           *)
 Report ==
-    (WhyNext # "ok") =>
+    (tid # 0 /\ WhyNext # "ok") =>
         PrintT("JREC" \o ToJson([tid |-> tid, p |-> i, n |-> Len(Ev), why |-> WhyNext,
                                  ev |-> IF Done THEN "" ELSE ToString(E.e)]))
 
